@@ -99,7 +99,7 @@ def handle : List String → String
     | some d, some cs =>
       let sorted := sortReaders d (cs.zipIdx.map fun (c, i) => (c.stats, (c, i)))
       (match stackDecisionG d (sorted.map (·.2.1)) with | some b => showBool b | none => "?") ++ "/" ++ showNatList (sorted.map (·.2.2)) ++ "/" ++
-        showBool ((sorted.map (·.2.1)).any fun c => hasLiveNulls c.card c.keys c.alive)
+        showBool ((sorted.map (·.2.1)).any fun c => hasLiveNullsG c.card c.keys c.alive)
     | _, _ => "bad-op"
   | _ => "bad-op"
 
